@@ -26,7 +26,7 @@ GEN_MODULES = []
 REQUIRED = ['codec_roundtrip', 'codec_reserialize_stable', 'to_from_dict_roundtrip', 'codec_rejects', 'codec_accepts', 'codec_save_ok_iff',
             'representable_serializable', 'codec_save_or_faithful', 'codec_faithful_iff_serializable', 'codec_set_reloads',
             'codec_reserved_key_reloads', 'codec_reserved_callable_reloads',
-            'blt_roundtrip', 'blt_parse_total', 'blt_loaded_indices_valid', 'blt_former_foreign_errors',
+            'blt_roundtrip', 'blt_written_string_uncut', 'blt_comment_start_examples', 'blt_parse_total', 'blt_loaded_indices_valid', 'blt_former_foreign_errors',
             'Stv.stv_nicks_distinct', 'Stv.stv_nicks_nonempty', 'Stv.stv_roundtrip', 'Stv.stv_dump_refuses', 'Stv.stv_header_roundtrip',
             'Stv.stv_parse_total', 'Stv.stv_former_foreign_errors', 'Stv.stv_end_and_empty_ballot_reload']
 REQUIRED_COUNTERS = ['codec_frac', 'codec_dec', 'codec_tuple', 'codec_fset', 'codec_sdict', 'codec_gdict', 'codec_obj', 'codec_callable',
@@ -35,6 +35,8 @@ REQUIRED_COUNTERS = ['codec_frac', 'codec_dec', 'codec_tuple', 'codec_fset', 'co
                      'sens_LargestRemainder_on_overaward', 'cls_depth_4', 'feat_fraction', 'feat_decimal', 'feat_callable_by_name', 'feat_dict_keyed',
                      'blt_rt', 'blt_withdrawn', 'blt_withdrawn_first', 'blt_one_candidate', 'blt_title', 'blt_weight_int',
                      'blt_weight_dec', 'blt_weight_frac', 'blt_weight_proper_fraction', 'blt_person', 'blt_strname', 'blt_empty_ballot',
+                     'blt_name_quote_then_hash', 'blt_name_hash_then_quote', 'blt_title_quote_then_hash', 'blt_title_hash_then_quote',
+                     'stv_name_quote_then_hash', 'stv_name_hash_then_quote', 'quote_hash_directed', 'quote_hash_alphabet', 'blt_clean',
                      'blt_text', 'mut_truncate_chars', 'mut_truncate_lines', 'mut_junk_token', 'mut_index_out_of_range',
                      'mut_zero_inside', 'mut_handmade',
                      'stv_rt', 'stv_blt_mode', 'stv_own_mode', 'stv_duplicate_initials', 'stv_many_candidates', 'stv_weight_below_one',
@@ -52,8 +54,10 @@ RULE = ('codec: random value trees of depth <= 4 over atoms (None/bool/int up to
         'system header (quota, mandatory, random, seats, title). blt_text / stv_text: 30 hand-made texts + 16 kinds of line / token / '
         'character mutations and truncations of written files (STV: also junk header lines). '
         'Non-trivial: codec depth >= 1; class saved without error; documents with >= 2 candidates and >= 1 ballot; texts > 8 characters.')
-NOT_VERIFIED = ['lexing of BLT/STV text (strip, split, "#" comments, quotes, str(weight), Decimal(text), str.isdigit): the harness tokenises real '
-                'text with Python\'s own predicates; writer and parser are compared with the token-level model on those token lines',
+NOT_VERIFIED = ['lexing of BLT/STV text (split, str(weight), Decimal(text), str.isdigit, STV header comments): the harness tokenises real '
+                'text with Python\'s own predicates; writer and parser are compared with the token-level model on those token lines. The BLT '
+                'comment rule (_clean_line: strip, where a # comment starts relative to double quotes) IS modelled at character level '
+                '(Blt.cleanLine, op blt_clean) for ASCII white space; other Unicode space characters are not',
                 'constructor reflection (simple_serialization, cls(**params)): that every class stores each constructor parameter under its own '
                 'name in a form its constructor accepts is established per class by the class_rt correspondence/oracle only',
                 'get_object name resolution is a parameter (Env) of the model; type names other than dict/Fraction/Decimal/tuple/frozenset '
@@ -484,6 +488,7 @@ def _cmp_loaded(il, ml):
 
 
 def _gen_blt_rt(rng, n):
+    yield from _gen_quote_hash('blt_rt')
     for k in range(n):
         tags = []
         r = rng.random()
@@ -530,8 +535,50 @@ def _tag_doc(c, pre):
         t.append(pre + '_empty_ballot')
     if any(IO.weight_py(w) < 1 for _, w in d['ballots']):
         t.append(pre + '_weight_below_one')
+    for n, _, _ in d['cands']:
+        for o in IO.quote_hash_order(n):
+            t.append(f'{pre}_name_{o}')
+    for o in IO.quote_hash_order(d.get('title') or ''):
+        t.append(f'{pre}_title_{o}')
     for h in _haz_rt(c):
         t.append('hazard_' + h)
+
+
+def _gen_quote_hash(op):
+    """directed, on every seed: names and titles with double quotes and hash signs in every order — as string candidates and
+    Person objects, withdrawn or not, with and without title; and every text of length <= 4 over {a, ", #, space}"""
+    sysd = None
+    k = 0
+    for name in IO.NAMES_QUOTE_HASH:
+        for title in (None, IO.TITLES_QUOTE_HASH[k % len(IO.TITLES_QUOTE_HASH)]):
+            k += 1
+            kind = 'str' if k % 2 else 'person'
+            doc = {'seats': 1, 'cands': [[name, kind == 'person' and k % 3 == 0, kind], ['Eve', False, kind]],
+                   'ballots': [[[0, 1], {'k': 'int', 'v': '2'}], [[1], {'k': 'dec', 'v': '1.5'}]], 'title': title}
+            if op == 'stv_rt':
+                doc['title'] = None
+            c = {'op': op, 'doc': doc, '_tags': ['quote_hash_directed']}
+            if op == 'stv_rt':
+                c['sys'] = sysd
+            _tag_doc(c, 'blt' if op == 'blt_rt' else 'stv')
+            if op == 'stv_rt':
+                c['_tags'].append('stv_blt_mode')
+            yield c
+    for t in IO.TITLES_QUOTE_HASH:
+        doc = {'seats': 2, 'cands': [['Al', False, 'str'], ['Bo', False, 'str']], 'ballots': [[[1, 0], {'k': 'int', 'v': '1'}]], 'title': t}
+        if op == 'blt_rt':
+            c = {'op': op, 'doc': doc, '_tags': ['quote_hash_directed']}
+            _tag_doc(c, 'blt')
+            yield c
+    if op == 'blt_rt':
+        for n in range(1, 5):
+            for chars in itertools.product('a"# ', repeat=n):
+                s = ''.join(chars)
+                doc = {'seats': 1, 'cands': [[s, False, 'person'], ['Z', True, 'person']], 'ballots': [[[0], {'k': 'int', 'v': '1'}]],
+                       'title': s if n % 2 else None}
+                c = {'op': op, 'doc': doc, '_tags': ['quote_hash_alphabet']}
+                _tag_doc(c, 'blt')
+                yield c
 
 
 # ------------------------------------------------------------------------------------------------ op blt_text
@@ -576,6 +623,44 @@ BLT_HANDMADE = [
     '2 1\n1 1 0\n0\nA\nB\n', '2 1\n1 1 0\n', '2 1\n"A"\n', '2 1\n1 2 1 0\n1 2 1 0\n3 1 0\n0\n', '2 1\n1 1 1 0\n0\n', '2 1\n0.0\n', '2 1\n5\n0\n',
     '² 1\n0\n', '2 1\n-1 -2\n0\n', '2 1\n-3\n0\n',
 ]
+
+
+# ------------------------------------------------------------------------------------------------ op blt_clean
+def _impl_blt_clean(case):
+    import votelib.io.blt as blt
+    return {'clean': _g(lambda: blt._clean_line(case['line']))}
+
+
+def _oracle_blt_clean(case, obs):
+    """where a comment starts: never inside the string line the writer produces; at the first hash of a line without quotes"""
+    line = case['line'].strip()
+    got = obs['clean']
+    if _is_err(got):
+        return [('clean_raises', got['exc'])]
+    if len(line) >= 2 and line.startswith('"') and line.endswith('"'):
+        return [] if got == line else [('written_string_cut', f'{line!r} -> {got!r}')]
+    if '"' not in line:
+        want = line.split('#', 1)[0].strip()
+        return [] if got == want else [('comment_start', f'{line!r} -> {got!r}, expected {want!r}')]
+    return []
+
+
+def _compare_blt_clean(case, iobs, mobs):
+    if iobs['clean'] != mobs['clean']:
+        return f"clean: impl={iobs['clean']!r} model={mobs['clean']!r}"
+    return None
+
+
+def _gen_blt_clean(rng, n):
+    for k in range(1, 6):
+        for chars in itertools.product('a"# ', repeat=k):
+            yield {'op': 'blt_clean', 'line': ''.join(chars), '_tags': ['blt_clean', 'blt_clean_exhaustive']}
+    for name in IO.NAMES_QUOTE_HASH + IO.TITLES_QUOTE_HASH:
+        for tail in ('', '  # comment', ' # a "quoted" comment', '#x'):
+            yield {'op': 'blt_clean', 'line': f'  "{name}"{tail} ', '_tags': ['blt_clean', 'blt_clean_directed']}
+    for _ in range(n):
+        line = ''.join(rng.choice('ab12 \t"#"#.-') for _ in range(rng.randint(0, 14)))
+        yield {'op': 'blt_clean', 'line': line, '_tags': ['blt_clean']}
 
 
 def _gen_blt_text(rng, n):
@@ -830,6 +915,7 @@ def _gen_stv_below_one(rng):
 
 
 def _gen_stv_rt(rng, n):
+    yield from _gen_quote_hash('stv_rt')
     yield from _gen_stv_many(rng)
     yield from _gen_stv_below_one(rng)
     plain = [x for x in IO.NAMES_PLAIN + IO.NAMES_RICH if '#' not in x and x == x.strip() and x and _initials(x)]
@@ -967,13 +1053,13 @@ def _gen_stv_text(rng, n):
 
 
 # ------------------------------------------------------------------------------------------------ dispatch
-IMPL = {'codec': _impl_codec, 'class_rt': _impl_class, 'class_sig': _impl_class_sig, 'blt_rt': _impl_blt_rt, 'blt_text': _impl_blt_text,
+IMPL = {'blt_clean': _impl_blt_clean, 'codec': _impl_codec, 'class_rt': _impl_class, 'class_sig': _impl_class_sig, 'blt_rt': _impl_blt_rt, 'blt_text': _impl_blt_text,
         'stv_rt': _impl_stv_rt, 'stv_text': _impl_stv_text}
-ORACLE = {'codec': _oracle_codec, 'class_rt': _oracle_class, 'class_sig': _oracle_class_sig, 'blt_rt': _oracle_rt, 'blt_text': _oracle_blt_text,
+ORACLE = {'blt_clean': _oracle_blt_clean, 'codec': _oracle_codec, 'class_rt': _oracle_class, 'class_sig': _oracle_class_sig, 'blt_rt': _oracle_rt, 'blt_text': _oracle_blt_text,
           'stv_rt': _oracle_stv_rt, 'stv_text': _oracle_stv_text}
-MODEL = {'codec': _model_codec, 'class_rt': _model_class, 'blt_rt': _model_blt_rt, 'blt_text': _model_blt_text,
+MODEL = {'blt_clean': (lambda case: {'op': 'blt_clean', 'line': case['line']}), 'codec': _model_codec, 'class_rt': _model_class, 'blt_rt': _model_blt_rt, 'blt_text': _model_blt_text,
          'stv_rt': _model_stv_rt, 'stv_text': _model_stv_text}
-COMPARE = {'codec': _compare_codec, 'class_rt': _compare_class, 'blt_rt': _compare_blt_rt, 'blt_text': _compare_blt_text,
+COMPARE = {'blt_clean': _compare_blt_clean, 'codec': _compare_codec, 'class_rt': _compare_class, 'blt_rt': _compare_blt_rt, 'blt_text': _compare_blt_text,
            'stv_rt': _compare_stv_rt, 'stv_text': _compare_stv_text}
 HAZ = {'codec': _haz_codec, 'class_rt': _haz_class, 'blt_rt': _haz_blt, 'stv_rt': _haz_stv}
 
@@ -1022,6 +1108,8 @@ def nontrivial(case, obs):
         return obs['n_classes'] > 50
     if op in ('blt_rt', 'stv_rt'):
         return len(case['doc']['ballots']) >= 1 and len(case['doc']['cands']) >= 2
+    if op == 'blt_clean':
+        return len(case['line']) >= 2
     return len(case['text']) > 8
 
 
@@ -1039,6 +1127,8 @@ def describe(case):
     if op == 'stv_rt':
         v, s, c, t = IO.build_doc(case['doc'])
         return f"votelib.io.stv.loads(votelib.io.stv.dumps({v!r}, <system {case.get('sys')}>, {c!r}, ...))"
+    if op == 'blt_clean':
+        return f"votelib.io.blt._clean_line({case['line']!r})"
     return f"votelib.io.{op[:3]}.loads({case['text']!r})"
 
 
@@ -1157,6 +1247,7 @@ def generate(rng, tier):
     q = tier == 'quick'
     yield from _gen_codec(rng, 3000 if q else 40000)
     yield from _gen_blt_rt(rng, 2500 if q else 30000)
+    yield from _gen_blt_clean(rng, 1500 if q else 20000)
     yield from _gen_blt_text(rng, 3000 if q else 40000)
     yield from _gen_stv_rt(rng, 2000 if q else 25000)
     yield from _gen_stv_text(rng, 2000 if q else 25000)
